@@ -212,7 +212,7 @@ def hist_units(prop, tier, seed):
     configs += [(c, [fam_kinds[i % len(fam_kinds)]]) for i, c in enumerate(hist_family(frng, 8 if tier == "quick" else 32))]
     if tier == "thorough":
         configs += sampled_configs(seed, 24)
-    cases = 600 if tier == "quick" else 4000
+    cases = 1500 if tier == "quick" else 4000
     # developer aids (not used by the registered commands)
     if os.environ.get("VERIF_EXTRA_CFG"):
         configs += [(c, ["s111d", "s000"]) for c in os.environ["VERIF_EXTRA_CFG"].split(";")]
@@ -237,7 +237,7 @@ def hist_units(prop, tier, seed):
                     a["junk-diff"] = 1
                 a["focus"] = prop
                 n = cases if fl != "casan" else cases // 3
-                units.append(Unit("hist", cfg, k, fl, a, n, batch=25 if tier == "quick" else 100))
+                units.append(Unit("hist", cfg, k, fl, a, n, batch=100))
     # dedicated probe units for the open findings of this property: no avoidance, so the listed defect is still driven
     for f in known:
         if f.get("status") == "open" and f["property"] == prop and f.get("probe", {}).get("engine") == "hist":
@@ -413,14 +413,14 @@ def cmp_units(prop, tier, seed):
     configs += [(c, kinds[i % 4]) for i, c in enumerate(cmp_family(frng, 16 if tier == "quick" else 80))]
     if tier == "thorough":
         configs += [(c, k[0]) for c, k in sampled_configs(seed + 100, 40) if vf.cfg_copyable(c)]
-    cases = 150 if tier == "quick" else 2500
+    cases = 400 if tier == "quick" else 2500
     flavours = ["plain", "asan"] if tier == "quick" else ["plain", "asan", "casan"]
     if os.environ.get("VERIF_CASES"):
         cases = int(os.environ["VERIF_CASES"])
     units = []
     for cfg, k in configs:
         for fl in flavours:
-            units.append(Unit("cmp", cfg, k, fl, {"seed": seed}, cases if fl != "casan" else cases // 3, batch=25 if tier == "quick" else 100))
+            units.append(Unit("cmp", cfg, k, fl, {"seed": seed}, cases if fl != "casan" else cases // 3, batch=100))
     return units
 
 
@@ -448,7 +448,7 @@ def ref_units(tier, seed):
     configs = list(REF_CONFIGS)
     if tier == "thorough":
         configs += [(c, k[0]) for c, k in sampled_configs(seed + 200, 40) if len(vf.parse_cfg(c)) <= 7]
-    cases = 300 if tier == "quick" else 4000
+    cases = 800 if tier == "quick" else 4000
     if os.environ.get("VERIF_CASES"):
         cases = int(os.environ["VERIF_CASES"])
     flavours = ["plain", "asan"] if tier == "quick" else ["plain", "asan", "casan"]
@@ -456,7 +456,7 @@ def ref_units(tier, seed):
     for cfg, k in configs:
         for fl in flavours:
             a = {"seed": seed, "max-n": 7 if tier == "quick" else 14, "max-steps": 30}
-            units.append(Unit("ref", cfg, k, fl, a, cases if fl != "casan" else cases // 3, batch=50 if tier == "quick" else 200))
+            units.append(Unit("ref", cfg, k, fl, a, cases if fl != "casan" else cases // 3, batch=200))
     return units
 
 
@@ -483,7 +483,7 @@ def elem_units(tier, seed):
     configs = list(ELEM_CONFIGS)
     if tier == "thorough":
         configs = [(c, k) for c, k in configs] + [(c, "s000") for c, _ in ELEM_CONFIGS[:8]] + [(c, k[0]) for c, k in sampled_configs(seed + 300, 40)]
-    cases = 300 if tier == "quick" else 4000
+    cases = 800 if tier == "quick" else 4000
     if os.environ.get("VERIF_CASES"):
         cases = int(os.environ["VERIF_CASES"])
     flavours = ["plain", "asan"] if tier == "quick" else ["plain", "asan", "casan"]
@@ -495,7 +495,7 @@ def elem_units(tier, seed):
         seen.add((cfg, k))
         for fl in flavours:
             a = {"seed": seed, "max-span": 5 if tier == "quick" else 12, "max-steps": 30 if tier == "quick" else 60}
-            units.append(Unit("elem", cfg, k, fl, a, cases if fl != "casan" else cases // 3, batch=50 if tier == "quick" else 200))
+            units.append(Unit("elem", cfg, k, fl, a, cases if fl != "casan" else cases // 3, batch=200))
     return units
 
 
@@ -546,7 +546,7 @@ def fault_units(tier, seed):
     configs = list(FAULT_CONFIGS)
     if tier == "thorough":
         configs = [(c, sorted(set(k + ["s000", "s100", "s010", "s001", "s111", "std"]))) for c, k in configs] + [(c, k) for c, k in sampled_configs(seed + 400, 30)]
-    cases = 270 if tier == "quick" else 3600
+    cases = 540 if tier == "quick" else 3600
     if os.environ.get("VERIF_CASES"):
         cases = int(os.environ["VERIF_CASES"])
     flavours = ["plain", "asan"] if tier == "quick" else ["plain", "asan", "casan"]
@@ -555,7 +555,7 @@ def fault_units(tier, seed):
         for k in kinds:
             for fl in flavours:
                 a = {"seed": seed, "max-cap": 5 if tier == "quick" else 10, "max-span": 4 if tier == "quick" else 9}
-                units.append(Unit("fault", cfg, k, fl, a, cases if fl != "casan" else cases // 3, batch=45 if tier == "quick" else 180))
+                units.append(Unit("fault", cfg, k, fl, a, cases if fl != "casan" else cases // 3, batch=180))
     return units
 
 
@@ -643,7 +643,7 @@ def layout_units(prop, tier, seed):
     n = 72 if tier == "quick" else 360
     configs = LAYOUT_CORE + layout_family(rng, n)
     per_unit = 12
-    cases_per_cfg = 12 if tier == "quick" else 60
+    cases_per_cfg = 30 if tier == "quick" else 120
     flavours = ["asan", "plain"] if tier == "quick" else ["asan", "plain", "casan"]
     units = []
     for i in range(0, len(configs), per_unit):
